@@ -17,8 +17,6 @@
 package history
 
 import (
-	"fmt"
-
 	"github.com/bbva/qed/balloon/cache"
 	"github.com/bbva/qed/crypto/hashing"
 )
@@ -26,6 +24,9 @@ import (
 type computeHashVisitor struct {
 	hasher hashing.Hasher
 	cache  cache.Cache
+	// missing records the first position looked up and not found; the
+	// recomputed hash is meaningless once it is set.
+	missing *position
 }
 
 func newComputeHashVisitor(hasher hashing.Hasher, cache cache.Cache) *computeHashVisitor {
@@ -52,8 +53,13 @@ func (v *computeHashVisitor) VisitPartialInnerHashOp(op partialInnerHashOp) hash
 
 func (v *computeHashVisitor) VisitGetCacheOp(op getCacheOp) hashing.Digest {
 	hash, ok := v.cache.Get(op.Position().Bytes())
-	if !ok { // TODO maybe we should return an error
-		panic(fmt.Sprintf("Oops, something went wrong. There should be a cached element at position %v", op.Position()))
+	if !ok {
+		// the cache is an audit path supplied by an untrusted server:
+		// a missing entry makes the proof invalid, it must not crash the verifier
+		if v.missing == nil {
+			v.missing = op.Position()
+		}
+		return nil
 	}
 	return hash
 }
